@@ -11,6 +11,7 @@ pending), client drains, nothing.  After every step the loop runs 2P+6 iteration
    idle > timeout and no output pending  -> the connection must be closed by now (bounded delay)
    idle < timeout or output pending      -> the connection must still be open
    idle == timeout                        -> don't-care
+   a gap that crosses last+timeout followed by activity in the same step -> don't-care (reaper and activity race)
 Threadless (real executor, real reaper schedule) and threaded (real run(), which checks before every select).
 """
 import math
@@ -98,6 +99,12 @@ def run_case(c: Dict[str, Any]) -> Dict[str, Any]:
         closed = is_closed()
         rec = {'step': label, 'now': now - T0, 'idle': round(idle, 6), 'pending': pending, 'closed': closed}
         trace.append(rec)
+        if model.get('race'):
+            # the clock jumped past last+timeout BEFORE this step's activity happened: the connection was legitimately
+            # reapable during the gap, and whether the reaper or the activity came first is a race - either outcome is fine
+            rec['dontcare'] = True
+            model['race'] = False
+            return
         if pending or idle < timeout:
             if closed:
                 ctl['violations'].append(('active-connection-reaped', rec))
@@ -111,6 +118,8 @@ def run_case(c: Dict[str, Any]) -> Dict[str, Any]:
         K.CLOCK.virtual = (K.CLOCK.virtual or T0) + gap_value(step['gap'], timeout)
         now = K.CLOCK.virtual
         a = step['action']
+        if not model['pending'] and (now - model['last']) > timeout and a in ('client_send', 'origin_small', 'origin_flood', 'client_drain'):
+            model['race'] = True
         if a == 'client_send':
             client.out += b'x' * 7 if state != 'half' else b'e'
             model['last'] = now
